@@ -9,8 +9,10 @@ package crypto
 //@ runtags [C19]
 
 //@ func (ECDSAPriv).Sign
+//@   modifies nothing
 //@   ensures [C19] @sixtyFourBytes implies(result1 == nil, len(result0) == 64)
 //@ func (ECDSAPub).Verify
+//@   modifies nothing
 //@   requires len(sig) >= 64
 //@ func Hash160
 //@   nopanic
